@@ -634,7 +634,8 @@ def c14_jobs():
     return jobs
 
 
-PROPS["C14"] = {"jobs": c14_jobs, "assumptions": COMMON_ASSUME + ["payload lengths, the operation and presence of a payload object are concrete shape parameters"],
+PROPS["C14"] = {"jobs": c14_jobs, "assumptions": COMMON_ASSUME + ["payload lengths, the operation and presence of a payload object are concrete shape parameters",
+    "source packets are built from symbolic message bytes through the Packet constructor, or (SRCSET shapes) carry a CAN payload built through the typed API and installed with setPayload, whose flags may include bus-error bits"],
                 "level": "bounded symbolic model checking of copy/move/assign/compare on packets and payloads built from symbolic messages"}
 
 
@@ -706,7 +707,8 @@ def c16_jobs():
 
 PROPS["C16"] = {"jobs": c16_jobs, "assumptions": COMMON_ASSUME + [
     "operation sequences are concrete shapes: hand-picked sequences plus, after two known devices, every sequence of 3 operations over a 6-operation alphabet containing a removal or clear (quick), all sequences of length <= 2 over a 13-operation alphabet plus 120 VERIF_SEED-chosen sequences of length 4-6 (thorough); packet contents are symbolic",
-    "the oracle is a ghost map kept by the harness (device -> latest tag, interface -> latest tag), compared as a map (entry order is not part of the property)"],
+    "the oracle is a ghost map kept by the harness (device -> latest tag, interface -> latest tag), compared as a map (entry order is not part of the property)",
+    "ids in the sequences are concrete representatives that collide in their low 8 / 16 bits; that lookups, removals and updates compare whole ids is decided for all pairs of distinct ids by h_status_devids / h_status_ifids (one entry present)"],
     "level": "bounded symbolic model checking of operation sequences on the real Status object against a ghost map"}
 
 
@@ -954,7 +956,8 @@ def c13_jobs():
 PROPS["C13"] = {"jobs": c13_jobs, "assumptions": COMMON_ASSUME + [
     "data / string / list lengths (final and of the earlier setData call) are concrete shape parameters; contents and header field values are symbolic",
     "'depends only on the final logical content' is checked as a two-object self-composition: an object that was set before with other data and a fresh object, after the same final calls, have equal raw bytes",
-    "prior states are API-built (default construction plus earlier setter calls); for CAN, CAN-FD and LIN also objects constructed from arbitrary raw bytes their validator accepts (PRAW shapes)"],
+    "prior states are API-built (default construction plus earlier setter calls); for CAN, CAN-FD and LIN also objects constructed from arbitrary raw bytes their validator accepts (PRAW shapes)",
+    "capture-module strings / vendor data: lengths 0..5 in all parities and re-set combinations, plus single long fields of 127, 255, 256 (thorough: 130, 200, 400) bytes so that length fields with a low byte >= 0x80 and with a non-zero high byte occur"],
     "level": "bounded symbolic model checking of the payload builders against getters, wire form, validators and a fresh-object twin"}
 
 
@@ -1020,6 +1023,7 @@ PROPS["C20"] = {"jobs": c20_jobs, "assumptions": COMMON_ASSUME + [
     "the byte-exact model comparisons of C07 (every frame byte incl. padding) and C04/C05 (every delivered byte) also exclude uninitialised output bytes; this check adds builders, TECMP conversion and reassembly",
     "a subset of the queries runs on unoptimised IR (clang -O0 + mem2reg, variant o0): at -O1 clang may replace the undefined part of a partially initialised local by a constant, which would hide the read from the encoding",
     "a counterexample the ASan replay does not reproduce (an uninitialised stack slot holds the same stale value in both runs of one process) is confirmed by valgrind memcheck on an uninstrumented build of the same harness",
+    "builder inputs (strings, data blocks) live in exact-size heap objects allocated per run: a read behind them is reported by the pointer checks and confirmed by ASan",
     "shapes as in the underlying harnesses (concrete sizes)"],
     "level": "bounded symbolic model checking of a two-run self-composition (non-interference of uninitialised memory with outputs)"}
 
